@@ -174,6 +174,10 @@ fn gen_base(rng: &mut Rng) -> ConnScenario {
         client.extras.push(Extra {
             after_ack: true, at_ns: ms(rng.range(1, 60_000)), id: 0x04, body: Body::KeepAlive { id: KaId::Fixed(rng.next_u64()) } });
     }
+    // a client that never echoes: the reference outcome is the timeout, whatever the transport does
+    if rng.chance(1, 10) {
+        client.ka_default = crate::client::KaPolicy::Never;
+    }
     // a long session cookie makes a long login-phase frame too
     if rng.chance(1, 3) {
         client.session_cookie = Some(
@@ -344,6 +348,18 @@ pub fn compare(sc: &ConnScenario, refo: &ConnOutcome, var: &ConnOutcome, rep: &m
     if refo.view.undecodable.is_some() || refo.result == "Hung" {
         return; // the base scenario itself is not a well-behaved client: nothing to compare against
     }
+    // a client that never echoes is timed out at a fixed tick; how far routing got by then depends on
+    // timing, so only the packets and the result are compared, and only if the reference was timed out
+    let silent = matches!(sc.client.ka_default, crate::client::KaPolicy::Never);
+    if silent && refo.result != "MissedKeepAlive" {
+        return;
+    }
+    // (and only if the unanswered Keep Alive went out at the same tick in both executions: a pause that moves
+    // the start of the configuration phase across a tick moves the whole keep-alive schedule with it)
+    if silent && refo.view.first("KeepAlive").map(|p| p.t_ns) != var.view.first("KeepAlive").map(|p| p.t_ns) {
+        *rep.probes.entry("silent_client_keep_alive_schedule_moved_skipped".into()).or_insert(0) += 1;
+        return;
+    }
     if !precondition(var, sc) {
         *rep.probes.entry("precondition_not_met_skipped".into()).or_insert(0) += 1;
         return;
@@ -373,6 +389,16 @@ pub fn compare(sc: &ConnScenario, refo: &ConnOutcome, var: &ConnOutcome, rep: &m
         return;
     }
     let (rc, vc) = (service_calls(refo), service_calls(var));
+    if silent {
+        let n = rc.len().min(vc.len());
+        if rc[..n] != vc[..n] {
+            rep.violate("same_service_calls", "service call logs of the two executions are not prefixes of one another".into());
+        }
+        if refo.result != var.result {
+            rep.violate("same_outcome", format!("reference ended {} , variant ended {} {}", refo.result, var.result, var.result_text));
+        }
+        return;
+    }
     if rc != vc {
         let at = rc.iter().zip(vc.iter()).position(|(a, b)| a != b).unwrap_or(rc.len().min(vc.len()));
         rep.violate("same_service_calls", format!("service call logs differ at #{at}: {:?} vs {:?}", rc.get(at), vc.get(at)));
@@ -423,7 +449,7 @@ impl Check for C08 {
     }
     fn execute(&self, c: &C08Sc) -> RunReport {
         let sc = &c.sc;
-        if !conn_domain_ok(sc) || sc.cap_ns < secs(600) || sc.client.script.is_some() || !sc.client.mutations.is_empty() || !matches!(sc.client.enc, crate::client::EncVariant::Honest) || !sc.client.ka.is_empty() || sc.client.ka_default != crate::client::KaPolicy::Prompt {
+        if !conn_domain_ok(sc) || sc.cap_ns < secs(600) || sc.client.script.is_some() || !sc.client.mutations.is_empty() || !matches!(sc.client.enc, crate::client::EncVariant::Honest) || !sc.client.ka.is_empty() || !matches!(sc.client.ka_default, crate::client::KaPolicy::Prompt | crate::client::KaPolicy::Never) {
             return RunReport::default();
         }
         if sc.wplan.iter().any(|w| matches!(w, WRule::Broken | WRule::Stall)) {
